@@ -480,7 +480,7 @@ static void cring_case()
 {
     int si = mc::choose((int)g_states.size());
     int pat = mc::choose(4);
-    int path = pat == 0 ? mc::choose(N_INIT) : INIT_FN; // the initialisation path only decides the ring_head, not the content: crossed with one pattern
+    int path = (pat == 0 && g_states[si].size <= 17) ? mc::choose(N_INIT) : INIT_FN; // the initialisation path only decides the ring_head, not the content: crossed with one pattern
     int grp = mc::choose(7);
     St s = g_states[si];
     unsigned size = s.size, avail = (s.head >= s.tail) ? s.head - s.tail : size + s.head - s.tail, room = size - 1 - avail;
@@ -1102,7 +1102,7 @@ template <class T> static void typed_case()
     int bufsize = g_bk[bi].bufsize, k = g_bk[bi].k;
     int m = mc::choose(bufsize + 1);
     int grp = mc::choose(is_char ? 8 : 7);
-    int path = mc::choose(3);
+    int path = bufsize <= 9 ? mc::choose(3) : 0; // the construction path is crossed with the sizes of the quick tier
     static const char *const G[] = {"observe+drain", "push/emplace", "pop", "clear/reset", "set_last_index(all)", "resize(all)", "head_place/move_*_one", "read(k)/write(k)"};
     int sz = bufsize + 1;
     mc::describe("igris::ring<%s>(%d) built as %s: %d push+pop (head at slot %d), then %d pushes; ops: %s", V<T>::name(), bufsize, TPATH[path], k, k % sz, m, G[grp]);
@@ -1975,6 +1975,393 @@ static void big_ring_counter_case()
 }
 
 // ======================================================================================================
+// H. long histories: ONE object per case, >= 70000 (thorough 300000) operations, the reference comparison after every one.
+//    The BFS merges states that look equal, so a hidden counter inside the object (a fill count, a generation, an index
+//    narrowed to 8/16 bits) that only misbehaves after 256 / 65536 operations on the same object is reached only here.
+// ======================================================================================================
+static long long_steps() { return mc::thorough() ? 300000 : 70000; }
+static const unsigned LONG_SIZES[] = {2, 3, 5, 8, 13, 250};
+
+static void long_cring_case()
+{
+    int ch = mc::choose(6 * N_INIT);
+    unsigned size = LONG_SIZES[ch / N_INIT];
+    int path = ch % N_INIT;
+    long N = long_steps();
+    mc::describe("one C ring of %u slots (set up by %s), %ld operations, counts and content compared after every one", size, INIT_NAME[path], N);
+    mc::nontrivial();
+    CR c(size, path);
+    if (!fresh_ok(c))
+        return;
+    g_quiet++;
+    int v0 = g_viols;
+    unsigned long bytes_in = 0, bytes_out = 0;
+    unsigned op = 0;
+    // at least N operations, and on until more than 65536 bytes went in and came out of this one ring
+    for (long step = 0; (step < N || ((bytes_in <= 66000 || bytes_out <= 66000) && step < 40 * N)) && g_viols == v0; step++)
+    {
+        op = (op + 7) % 11; // stride coprime to the alphabet
+        unsigned room = c.ref_room(), avail = (unsigned)c.ref.size();
+        unsigned k = (unsigned)((step * 31 + step / 11) % (size + 2));
+        size_t before = c.ref.size();
+        switch (op)
+        {
+        case 0:
+        case 8:
+            op_putc(c, (uint8_t)(step * 37 + 11 + step / 256));
+            break;
+        case 1:
+        case 9:
+            op_getc(c);
+            break;
+        case 2:
+        {
+            std::vector<uint8_t> d(k);
+            for (unsigned i = 0; i < k; i++)
+                d[i] = (uint8_t)(0xFC + step + i * 3);
+            op_write(c, d);
+            break;
+        }
+        case 3:
+            op_read(c, k);
+            break;
+        case 4:
+            op_move_head(c, std::min(k, room), false, (uint8_t)(0xFE + step));
+            break;
+        case 5:
+            op_move_tail(c, std::min(k, avail), false);
+            break;
+        case 6:
+            if (room)
+                op_move_head(c, 1, true, (uint8_t)(0xFF - step));
+            break;
+        case 7:
+            if (avail)
+                op_move_tail(c, 1, true);
+            break;
+        default:
+            if (step % 9973 == 10)
+                op_clean(c);
+            else
+                op_putc(c, 0xFF);
+            break;
+        }
+        if (c.ref.size() > before)
+            bytes_in += c.ref.size() - before;
+        else
+            bytes_out += before - c.ref.size();
+        if (g_viols != v0)
+            break;
+        // after every operation: counters, flags, index range, and the content through ring_for_each
+        if (!check_counts(c, "C03.long_history.cring.", "long history"))
+            break;
+        unsigned steps = 0;
+        bool bad = false;
+        ring_for_each(n, &c.r)
+        {
+            if (steps > c.size || n >= c.size || steps >= c.ref.size() || (uint8_t)c.buf[n] != c.ref[steps])
+            {
+                bad = true;
+                break;
+            }
+            steps++;
+        }
+        if (bad || steps != c.ref.size())
+        {
+            VIOL("C03.long_history.cring.content", "after %ld operations on one ring: ring_for_each / content differs from the reference; %s", step + 1, c.str().c_str());
+            break;
+        }
+        if (step % 97 == 0)
+            verify(c, "long_history.cring"); // full read-back on copies
+        if (step % 1024 == 0)
+            mc::tick();
+    }
+    g_quiet--;
+    if (g_viols != v0)
+        mc::count("long_history_stopped_early");
+    mc::more_cases(N - 1, N - 1);
+    mc::outcome(mc::fmt("long cring in>65536:%d out>65536:%d", bytes_in > 65536, bytes_out > 65536));
+    if (bytes_in <= 65536 || bytes_out <= 65536)
+        mc::cap("long C-ring history moved fewer than 65536 bytes");
+}
+
+template <class T> static void long_typed_case()
+{
+    LifeScope<T> life("typed_ring");
+    static const int NS[] = {1, 2, 3, 5, 8};
+    int ch = mc::choose(5 * 3);
+    int n = NS[ch / 3], path = ch % 3;
+    long N = long_steps();
+    if (std::is_same<T, Tracked>::value)
+        N = N / 2 + 1000 > 70000 ? N / 2 + 1000 : 70000; // registry-backed element: still past 65536
+    mc::describe("one igris::ring<%s>(%d) built as %s, %ld operations, counts and content compared after every one", V<T>::name(), n, TPATH[path], N);
+    mc::nontrivial();
+    TR<T> t(n, path);
+    unsigned op = 0;
+    long pushes = 0, pops = 0;
+    // at least N operations, and on until this one ring has seen more than 65536 pushes
+    for (long step = 0; (step < N || (t.stamp <= 66000 && step < 40 * N)) && !t.dead(); step++)
+    {
+        op = (op + 4) % 9;
+        bool full = (int)t.live.size() >= t.bufsize, empty = t.live.empty();
+        switch (op)
+        {
+        case 0:
+        case 4:
+            if (!full)
+                t.push(0);
+            else
+                t.pop();
+            break;
+        case 1:
+            if (!full)
+                t.push(1); // emplace
+            break;
+        case 2:
+        case 3:
+            if (!empty)
+                t.pop();
+            else
+                t.push(step & 1);
+            break;
+        case 5:
+            if (!empty)
+            {
+                CTX("C03.typed_ring.move_tail_one.memory");
+                t.ring.move_tail_one();
+                t.live.pop_front();
+                t.window = std::min(t.window, t.live.size());
+            }
+            break;
+        case 6:
+            if (!full)
+            {
+                T v = V<T>::mk(t.stamp++);
+                CTX("C03.typed_ring.head_place.memory");
+                t.ring.head_place() = v;
+                t.ring.move_head_one();
+                t.note_push(v);
+            }
+            break;
+        case 7:
+            if (step % 4999 == 7)
+            {
+                CTX("C03.typed_ring.clear.memory");
+                t.ring.clear();
+                t.live.clear();
+                t.window = 0;
+            }
+            else if (!full)
+                t.push(0);
+            break;
+        default:
+            if (step % 20011 == 8)
+            { // the same object set up again
+                while (!t.live.empty())
+                    t.pop();
+                CTX("C03.typed_ring.resize.memory");
+                if (step & 1)
+                    t.ring.resize(n);
+                else
+                    t.ring.reset();
+                t.window = 0;
+            }
+            else if (!empty)
+                t.pop();
+            break;
+        }
+        pushes = (long)t.pushed.size();
+        if (t.dead())
+            break;
+        // after every operation: counters, oldest/newest element, the whole content newest-first, one index fix-up several laps away
+        CTX("C03.typed_ring.observe.memory");
+        if (!t.counts("long history"))
+            break;
+        size_t av = t.live.size();
+        if (av)
+        {
+            if (!(t.ring.tail() == t.live.front()) || !(t.ring.last() == t.live.back()))
+                VIOL("C03.long_history.typed_ring.tail_last", "after %ld operations on one ring: tail()/last() are not the oldest/newest element; %s", step + 1, t.str().c_str());
+            std::vector<T> got = t.ring.get_last(0, (int)av, true);
+            bool ok = got.size() == av;
+            for (size_t i = 0; ok && i < av; i++)
+                ok = got[i] == t.live[av - 1 - i];
+            if (!ok)
+                VIOL("C03.long_history.typed_ring.content", "after %ld operations on one ring: get_last(0,%zu,from_end) is not the content newest first; %s", step + 1, av, t.str().c_str());
+        }
+        {
+            int sz = (int)t.ring.size();
+            long i = (step % (20 * sz + 1)) - 10 * sz; // -10 .. +10 laps
+            if (t.ring.fixup_index((int)i) != pmod(i, sz))
+                VIOL(i < 0 ? "C03.typed_ring.fixup_index.negative" : "C03.typed_ring.fixup_index.nonnegative", "fixup_index(%ld) on %d slots = %d, want %d", i, sz, t.ring.fixup_index((int)i), pmod(i, sz));
+        }
+        if (step % 499 == 0)
+            t.observe("long history"); // every accessor
+        if (step % 1024 == 0)
+            mc::tick();
+        // the reference copies of long-gone pushes are not needed any more
+        if (t.pushed.size() > 4096)
+            t.pushed.erase(t.pushed.begin(), t.pushed.end() - 64);
+        pops++;
+    }
+    (void)pushes;
+    CTX("C03.typed_ring.fill_drain.memory");
+    t.fill_and_drain("end of long history");
+    mc::more_cases(N - 1, N - 1);
+    mc::outcome(mc::fmt("long typed %d", t.stamp > 65536));
+    if (!t.dead() && t.stamp <= 65536)
+        mc::cap("long typed-ring history made fewer than 65536 pushes");
+}
+
+template <class T> static void long_cyclic_case()
+{
+    LifeScope<T> life("cyclic_buffer");
+    static const int NS[] = {1, 2, 3, 8, 100};
+    int ch = mc::choose(5 * 2);
+    int n = NS[ch / 2], with_resize = ch % 2;
+    long N = long_steps();
+    mc::describe("one cyclic_buffer<%s>(%d), %ld pushes%s, size() and every [i] compared after every push", V<T>::name(), n, N, with_resize ? ", resize(n) every 40009 pushes" : "");
+    mc::nontrivial();
+    CB<T> c(n);
+    const auto &ccb = c.cb;
+    int v0 = g_viols;
+    for (long step = 0; step < N && g_viols == v0; step++)
+    {
+        if (with_resize && step % 40009 == 40008)
+        {
+            CTX("C03.cyclic_buffer.resize.memory");
+            c.cb.resize(n);
+            c.hist.clear();
+        }
+        c.push(); // checks the evicted sample once full
+        CTX("C03.cyclic_buffer.observe.memory");
+        size_t want = std::min(c.hist.size(), c.cap);
+        if (c.cb.counter.counter < 0 || c.cb.counter.counter >= c.cb.counter.size || (size_t)c.cb.counter.size > c.cb.data.size())
+        {
+            VIOL("C03.cyclic_buffer.index_out_of_range", "after %ld pushes on one buffer: counter=%d size=%d buffer slots=%zu", step + 1, c.cb.counter.counter, c.cb.counter.size, c.cb.data.size());
+            break;
+        }
+        if (c.cb.size() != want)
+        {
+            VIOL("C03.long_history.cyclic_buffer.size", "after %ld pushes on one cyclic_buffer(%d): size()=%zu, want %zu", step + 1, n, c.cb.size(), want);
+            break;
+        }
+        size_t lim = (n > 8 && (step % 64 || std::is_same<T, Tracked>::value)) ? 3 : want; // the large buffer: all samples every 64th push, the newest three otherwise
+        for (size_t i = 0; i < lim && i < want; i++)
+            if (!(c.cb[(int)i] == c.hist[c.hist.size() - 1 - i]) || !(ccb[(int)i] == c.hist[c.hist.size() - 1 - i]))
+            {
+                VIOL("C03.long_history.cyclic_buffer.index.value", "after %ld pushes on one cyclic_buffer(%d): [%zu] is not the %zu-th previous sample", step + 1, n, i, i);
+                break;
+            }
+        if (c.hist.size() > 4096)
+            c.hist.erase(c.hist.begin(), c.hist.end() - (long)c.cap - 8);
+        if (step % 1024 == 0)
+            mc::tick();
+    }
+    mc::more_cases(N - 1, N - 1);
+    mc::outcome("long cyclic");
+}
+
+template <class T> static void long_uarray_case()
+{
+    LifeScope<T> life("unbounded_array");
+    int start = mc::choose(4);
+    long N = long_steps();
+    if (std::is_same<T, Tracked>::value)
+        N = 70000;
+    mc::describe("one unbounded_array<%s>, %ld resize cycles (sizes 0..8), every element written and read back after every resize", V<T>::name(), N);
+    mc::nontrivial();
+    CTX("C03.unbounded_array.ctor.memory");
+    igris::unbounded_array<T, typename AllocFor<T>::type> a(start);
+    int v0 = g_viols;
+    for (long step = 0; step < N && g_viols == v0 && !mc::case_has_violation(); step++)
+    {
+        int n = (int)((step * 5 + step / 9) % 9);
+        CTX("C03.unbounded_array.resize.memory");
+        if (step % 7 == 3)
+            a.clear();
+        else
+            a.resize(n);
+        int want = step % 7 == 3 ? 0 : n;
+        if (a.size() != (size_t)want || a.end() - a.begin() != want)
+        {
+            VIOL("C03.long_history.unbounded_array.size", "after %ld resize cycles: size()=%zu, want %d", step + 1, a.size(), want);
+            break;
+        }
+        for (int i = 0; i < want; i++)
+            a[i] = V<T>::mk((int)(step + i));
+        for (int i = 0; i < want; i++)
+            if (!(a[i] == V<T>::mk((int)(step + i))))
+            {
+                VIOL("C03.long_history.unbounded_array.value", "after %ld resize cycles: element %d of %d differs", step + 1, i, want);
+                break;
+            }
+        if (step % 1024 == 0)
+            mc::tick();
+    }
+    CTX("C03.unbounded_array.dtor.memory");
+    mc::more_cases(N - 1, N - 1);
+    mc::outcome("long uarray");
+}
+
+static void long_ring_counter_case()
+{
+    static const int NS[] = {1, 2, 3, 7, 250, 257};
+    int size = NS[mc::choose(6)];
+    long N = long_steps();
+    mc::describe("one ring_counter of size %d, %ld operations, every query with arguments up to 10 laps either way", size, N);
+    mc::nontrivial();
+    struct ring_counter rc;
+    memset(&rc, 0x5A, sizeof rc);
+    ring_counter_init(&rc, size);
+    long ref = 0;
+    int v0 = g_viols;
+    for (long step = 0; step < N && g_viols == v0; step++)
+    {
+        long a = (step * 13 + step / 7) % (20L * size + 1) - 10L * size; // -10 .. +10 laps
+        switch (step % 5)
+        {
+        case 0:
+            ring_counter_increment(&rc, 1);
+            ref = (ref + 1) % size;
+            break;
+        case 1:
+            ring_counter_increment(&rc, (int)(a < 0 ? -a : a));
+            ref = (ref + (a < 0 ? -a : a)) % size;
+            break;
+        case 2:
+            if (step % 1009 == 2)
+            {
+                ring_counter_set(&rc, (int)(a < 0 ? -a : a));
+                ref = (a < 0 ? -a : a) % size;
+            }
+            break;
+        default:
+            break;
+        }
+        if (ring_counter_get(&rc) != ref || rc.size != size)
+        {
+            VIOL("C03.long_history.ring_counter.counter", "after %ld operations on one ring_counter(%d): counter=%d size=%d, want %ld", step + 1, size, rc.counter, rc.size, ref);
+            break;
+        }
+        long na = a < 0 ? -a : a;
+        int p = ring_counter_prev(&rc, (int)na), l = ring_counter_last(&rc, (int)a), f = ring_counter_fixup_pos(&rc, (int)a);
+        if (p != pmod(ref - na, size))
+            VIOL("C03.ring_counter.prev.value", "ring_counter_prev(counter=%ld,size=%d, %ld) = %d, want %d", ref, size, na, p, pmod(ref - na, size));
+        if (l != pmod(ref - a, size))
+            VIOL(a < 0 ? "C03.ring_counter.last.value.negative_arg" : "C03.ring_counter.last.value", "ring_counter_last(counter=%ld,size=%d, %ld) = %d, want %d", ref, size, a, l, pmod(ref - a, size));
+        if (f != pmod(a, size))
+            VIOL(a < 0 ? "C03.ring_counter.fixup_pos.value.negative_arg" : "C03.ring_counter.fixup_pos.value", "ring_counter_fixup_pos(size=%d, %ld) = %d, want %d", size, a, f, pmod(a, size));
+        if (ring_counter_get(&rc) != ref)
+            VIOL("C03.ring_counter.query.modifies", "a query changed the counter %ld -> %d", ref, ring_counter_get(&rc));
+        if (step % 1024 == 0)
+            mc::tick();
+    }
+    mc::more_cases(N - 1, N - 1);
+    mc::outcome("long rc");
+}
+
+// ======================================================================================================
 
 static void register_all(bool thorough)
 {
@@ -2025,6 +2412,14 @@ static void register_all(bool thorough)
     for (unsigned s : bigsizes)
         g_initsizes.push_back(s);
     mc::add_check("cring_init_paths", init_paths_case);
+    mc::add_check("long_history_cring", long_cring_case);
+    mc::add_check("long_history_typed_ring_int", long_typed_case<int>);
+    mc::add_check("long_history_typed_ring_tracked", long_typed_case<Tracked>);
+    mc::add_check("long_history_cyclic_buffer_int", long_cyclic_case<int>);
+    mc::add_check("long_history_cyclic_buffer_tracked", long_cyclic_case<Tracked>);
+    mc::add_check("long_history_unbounded_array_int", long_uarray_case<int>);
+    mc::add_check("long_history_unbounded_array_tracked", long_uarray_case<Tracked>);
+    mc::add_check("long_history_ring_counter", long_ring_counter_case);
     mc::add_check("cring_every_state_every_op", cring_case);
     for (unsigned n = 2; n <= (thorough ? 6u : 5u); n++)
         mc::add_bfs(mc::fmt("cring_bfs_size%u", n), [n]() { return std::unique_ptr<mc::Model>(new CRingModel(n)); });
